@@ -240,6 +240,7 @@ impl World {
         self.ctx.cur.set(0);
         self.tasks[t].state = TS::Dead;
         self.ctx.curop.borrow_mut()[t].clear();
+        self.ctx.curfd.borrow_mut()[t] = 0;
         self.ctx.emit(Ev::new("cancel", t as i64, 0, 0, ""));
         self.check_wakes(0);
     }
